@@ -182,8 +182,13 @@ def one_round(rng, names, spelled, feats):
 
 
 def random_case(rng):
-    """-> (case, feature tags).  case = {"rounds": [graph, ...]}; rounds > 1 = the same titles re-added
-    (add_page overwrites, need_pre_expand reset) and analysed again in the same context."""
+    """-> (case, feature tags).  case = {"mode": "readd" | "grow", "rounds": [graph, ...]}.
+    readd, rounds > 1: the same titles are stored again (add_page overwrites, need_pre_expand reset) and
+    analysed again in the same context.
+    grow: ONE library is generated and its pages are dealt out over 2-4 rounds; each round ADDS its pages to the
+    long-lived store and analyses again (new includers of marked and of unmarked templates, new flagged templates,
+    new redirects, names that only resolve once a later round has added their page).
+    Some pages are stored with need_pre_expand=True up front ("p": 1) in every mode."""
     feats = set()
     n = rng.choice([1, 2, 3, 3, 4, 4, 4, 5, 5, 5, 6, 6, 6, 7, 7, 8, 8])
     names = rng.sample(POOL, n)
@@ -191,9 +196,31 @@ def random_case(rng):
         names.sort()            # insertion order = title order, as in a dump
     spelled = rng.random() < 0.55
     feats.add("names.spelled" if spelled else "names.canonical")
-    k = 1
-    if rng.random() < 0.2:
-        k = rng.randint(2, 4)
-        feats.add("rounds>1")
-    rounds = [one_round(rng, names, spelled, feats) for _ in range(k)]
-    return {"rounds": rounds}, feats
+    x = rng.random()
+    if x < 0.3 and n >= 2:
+        g = one_round(rng, names, spelled, feats)
+        pages = g["pages"]
+        rng.shuffle(pages)
+        if rng.random() < 0.5:
+            # the flagged templates come first: later rounds add includers of templates that are already marked
+            pages.sort(key=lambda p: -p["f"])
+            feats.add("grow.flagged-first")
+        k = min(n, rng.randint(2, 4))
+        cuts = sorted(rng.sample(range(1, n), k - 1))
+        rounds = [{"pages": pages[a:b]} for a, b in zip([0] + cuts, cuts + [n])]
+        feats.add("mode.grow")
+        case = {"mode": "grow", "rounds": rounds}
+    else:
+        k = 1
+        if x < 0.45:
+            k = rng.randint(2, 4)
+            feats.add("rounds>1")
+        case = {"mode": "readd", "rounds": [one_round(rng, names, spelled, feats) for _ in range(k)]}
+    if rng.random() < 0.3:
+        q = rng.choice([0.1, 0.25, 0.5])
+        for r in case["rounds"]:
+            for p in r["pages"]:
+                if rng.random() < q:
+                    p["p"] = 1
+                    feats.add("premarked")
+    return case, feats
